@@ -119,7 +119,7 @@ func mutateTranscript(r Rng, in []byte) []byte {
 
 func runC03(ctx *Ctx) error {
 	r, res := ctx.Rng, ctx.Res
-	res.Rule = "inputs: (a) transcripts recorded from pairs of real sessions (both roles, with and without outbound messages), mutated at every layer: truncation, deletion, insertion (NUL, control bytes, short lines such as 'F>', ';PQ', 'FS A5000'), substitution, numeric boundary values in any decimal field, line replacement, duplication, bit flips; the remote's answer lines replaced by offset requests (!n, An) around the compressed and the uncompressed size of the message asked for; (b) scripted masters delivering payloads whose compressed bytes or decompressed message are damaged (garbage, short LZHUF header, CRC flip, negative/huge Body and File sizes, File headers without a name or without a size, truncated sections; valid payloads behind proposal lines that declare a wrong uncompressed size, up to 2^63-1); (c) arbitrary bytes. Each is fed to a real Session.Exchange (then EOF). Oracle: returns nil/ErrConnLost/error within the watchdog, no panic, connection closed, allocation bounded by 32 MiB + 8 KiB per input byte. Correspondence: wire bytes, callbacks, stats and result class vs the model side. Non-trivial: mutated or damaged input; distinct by (config, input)."
+	res.Rule = "inputs: (a) transcripts recorded from pairs of real sessions (both roles, with and without outbound messages), mutated at every layer: truncation, deletion, insertion (NUL, control bytes, short lines such as 'F>', ';PQ', 'FS A5000'), substitution, numeric boundary values in any decimal field, line replacement, duplication, bit flips; the remote's answer lines replaced by offset requests (!n, An) around the compressed and the uncompressed size of the message asked for; (b) scripted masters delivering payloads whose compressed bytes or decompressed message are damaged (garbage, short LZHUF header, CRC flip, negative/huge Body and File sizes, File headers without a name or without a size, truncated sections; valid payloads behind proposal lines that declare a wrong uncompressed size, up to 2^63-1; blocks of 6..60 proposals with a correct checksum); (c) arbitrary bytes. Each is fed to a real Session.Exchange (then EOF). Oracle: returns nil/ErrConnLost/error within the watchdog, no panic, connection closed, allocation bounded by 32 MiB + 8 KiB per input byte. Correspondence: wire bytes, callbacks, stats and result class vs the model side. Non-trivial: mutated or damaged input; distinct by (config, input)."
 	type tc struct {
 		c  sideCfg
 		in []byte
@@ -259,6 +259,18 @@ func runC03(ctx *Ctx) error {
 	// information from the remote: nothing may be allocated or indexed on its word)
 	for _, sz := range []int{0, 1, len(gb) - 1, len(gb) + 1, 1 << 20, 1 << 27, 1<<31 - 1, 1 << 31, 1 << 40, 1 << 62, 1<<63 - 1} {
 		tcs = append(tcs, tc{slave, scriptMaster([]scriptMsg{{"GOODMSG00001", sz, cgood}}, 1+r.Intn(256)), "misdeclared-size"})
+	}
+	// blocks of more proposals than the protocol allows (6, 7, 10, 60), with a correct checksum,
+	// from a master; with and without a handler on the library side
+	for _, nprop := range []int{6, 7, 10, 60} {
+		var ms []scriptMsg
+		for k := 0; k < nprop; k++ {
+			ms = append(ms, scriptMsg{fmt.Sprintf("BLK%02dMSG%04d", nprop, k), len(gb), cgood})
+		}
+		tcs = append(tcs, tc{slave, scriptMaster(ms, 1+r.Intn(256)), "oversized-block"})
+		nh := slave
+		nh.Handler = false
+		tcs = append(tcs, tc{nh, scriptMaster(ms, 1+r.Intn(256)), "oversized-block"})
 	}
 	// (c) arbitrary bytes
 	for i := 0; i < ctx.N(300, 3000); i++ {
